@@ -191,8 +191,39 @@ def strat_part(tier):
             "voice_mask": st.lists(st.booleans(), max_size=6),
             # voices numbered from 0 (a stated voice 0 is a value, not a missing voice)
             "voice_base": st.sampled_from([1, 1, 0]),
+            # ---- generator audit (docs/audit/C05.md)
+            # voice numbers with gaps / in any order instead of base..base+k-1
+            "voice_labels": st.one_of(st.none(), st.none(), st.lists(st.integers(0, 12), min_size=3, max_size=3, unique=True)),
+            # the documented ways to ask for the note array of one part
+            "entry": st.sampled_from(["method", "method", "ensure", "function", "score-of-one-part"]),
+            # another call with other options first (results must not depend on earlier calls)
+            "warmup": st.one_of(st.none(), st.lists(st.booleans(), min_size=7, max_size=7)),
+            # musical beats switched on and off again before the call
+            "toggle_back": st.booleans(),
         }
     )
+
+
+def relabel_voices(ps, labels):
+    if not labels:
+        return ps
+    ps = dict(ps)
+    vs = sorted(set(n["voice"] for n in ps["notes"] if n.get("voice") is not None))
+    vmap = {v: labels[i % len(labels)] for i, v in enumerate(vs)}
+    ps["notes"] = [dict(n, voice=vmap[n["voice"]] if n.get("voice") is not None else None) for n in ps["notes"]]
+    return ps
+
+
+def _get_note_array(entry, part, kw):
+    from partitura.utils.music import ensure_notearray, note_array_from_part
+
+    if entry == "ensure":
+        return call(ensure_notearray, part, **kw)
+    if entry == "function":
+        return call(note_array_from_part, part, **kw)
+    if entry == "score-of-one-part":
+        return call(S.Score([part]).note_array, **kw)
+    return call(part.note_array, **kw)
 
 
 def shift_voices(ps, base):
@@ -205,8 +236,15 @@ def shift_voices(ps, base):
 
 def oracle_part(spec):
     o = Outcome()
-    ps = apply_missing_voice(shift_voices(spec["part"], spec.get("voice_base", 1)), spec["voice_mask"])
+    ps = apply_missing_voice(relabel_voices(shift_voices(spec["part"], spec.get("voice_base", 1)), spec.get("voice_labels")), spec["voice_mask"])
     part, _ = build_part(ps)
+    if spec.get("toggle_back"):
+        # the other kind of beats switched on and off again: no trace may remain
+        if spec["musical"]:
+            call(part.use_notated_beat)
+        else:
+            call(part.use_musical_beat)
+            call(part.use_notated_beat)
     if spec["musical"]:
         call(part.use_musical_beat)
     tref = G.TimeRef(ps, musical=spec["musical"])
@@ -229,11 +267,21 @@ def oracle_part(spec):
     o.cls("voice-zero-with-others", len(set(n.get("voice") for n in ps["notes"] if n["kind"] in ("note", "grace")) - {None}) > 1 and any(n.get("voice") == 0 for n in ps["notes"] if n["kind"] in ("note", "grace")))
     for k, v in flags.items():
         o.cls(k, v)
+    entry = spec.get("entry", "method")
+    if entry == "score-of-one-part" and multi_div:
+        entry = "method"  # the score level always asks for divs_pq (unsupported with division changes)
+    vs = sorted(set(n["voice"] for n in ps["notes"] if n.get("voice") is not None and n["kind"] in ("note", "grace")))
+    o.cls("voice-numbers-with-gaps", bool(vs) and vs != list(range(vs[0], vs[0] + len(vs))))
+    o.cls("entry:" + entry)
+    o.cls("warm-up-call-with-other-options", bool(spec.get("warmup")))
+    o.cls("beats-toggled-back", bool(spec.get("toggle_back")))
     kw = {k: True for k, v in flags.items() if v}
     cols = list(COLS_ALWAYS)
     for k, v in flags.items():
         if v:
             cols += COLS_BY_FLAG[k]
+    if entry == "score-of-one-part" and "divs_pq" not in cols:
+        cols.append("divs_pq")
     skip = set()
     if len(ps["measures"]) < 2:
         skip.update(COLS_BY_FLAG["include_metrical_position"])
@@ -243,14 +291,21 @@ def oracle_part(spec):
     if not rows:
         o.excluded.append("part-without-notes")
         return o
+    if spec.get("warmup"):
+        wkw = {k: True for k, v in zip(FLAGS, spec["warmup"]) if v}
+        try:
+            call(part.note_array, **wkw)
+        except SutRaised as e:
+            if not (wkw.get("include_divs_per_quarter") and multi_div and "multiple divisions is not supported" in e.text):
+                raise
     try:
-        arr = call(part.note_array, **kw)
+        arr = _get_note_array(entry, part, kw)
     except SutRaised as e:
         if flags["include_divs_per_quarter"] and multi_div and "multiple divisions is not supported" in e.text:
             o.cls("divs-pq-unsupported-with-division-changes")
             kw.pop("include_divs_per_quarter")
             cols = [c for c in cols if c != "divs_pq"]
-            arr = call(part.note_array, **kw)
+            arr = _get_note_array(entry, part, kw)
         else:
             raise
     compare_table(o, arr, rows, cols, "note-array", skip_cols=skip)
@@ -265,6 +320,10 @@ def strat_rest(tier):
             "part": G.part_spec(prof),
             "flags": st.lists(st.booleans(), min_size=6, max_size=6),
             "collapse": st.booleans(),
+            # ---- generator audit: rests without voice, musical beats, the dispatching entry point
+            "voice_mask": st.one_of(st.just([]), st.lists(st.booleans(), max_size=6)),
+            "musical": st.booleans(),
+            "entry": st.sampled_from(["method", "method", "ensure"]),
         }
     )
 
@@ -274,14 +333,21 @@ REST_FLAGS = FLAGS[:6]
 
 def oracle_rest(spec):
     o = Outcome()
-    ps = spec["part"]
+    # (rests without voice only without collapse: joining "consecutive rests of one voice" says nothing about
+    # voiceless rests of different voices that overlap in time)
+    ps = apply_missing_voice(spec["part"], [] if spec["collapse"] else (spec.get("voice_mask") or []))
     part, _ = build_part(ps)
-    tref = G.TimeRef(ps)
+    if spec.get("musical"):
+        call(part.use_musical_beat)
+    tref = G.TimeRef(ps, musical=bool(spec.get("musical")))
     if tref.ambiguous_pickup:
         o.excluded.append("pickup-ambiguous")
         return o
     flags = dict(zip(REST_FLAGS, spec["flags"]))
     rows = expected_rows(ps, ("rest",), tref)
+    o.cls("rest-without-voice", any(n.get("voice") is None for n in ps["notes"] if n["kind"] == "rest"))
+    o.cls("musical-beats", bool(spec.get("musical")))
+    o.cls("entry:" + spec.get("entry", "method"))
     o.nontrivial = len(rows) >= 2 and any(spec["flags"])
     o.cls("has-rests", bool(rows))
     o.cls("collapse", spec["collapse"])
@@ -295,7 +361,12 @@ def oracle_rest(spec):
     skip = set()
     if len(ps["measures"]) < 2:
         skip.update(COLS_BY_FLAG["include_metrical_position"])
-    arr = call(part.rest_array, collapse=spec["collapse"], **kw)
+    if spec.get("entry") == "ensure":
+        from partitura.utils.music import ensure_rest_array
+
+        arr = call(ensure_rest_array, part, collapse=spec["collapse"], **kw)
+    else:
+        arr = call(part.rest_array, collapse=spec["collapse"], **kw)
     if not rows:
         if len(arr) != 0:
             o.add("rest-array-rows-without-rests", n=len(arr))
@@ -330,19 +401,31 @@ def oracle_rest(spec):
 # ------------------------------------------------------------------ score level
 @st.composite
 def strat_score_(draw, tier):
-    n = draw(st.integers(2, 3))
+    n = draw(st.sampled_from([1, 2, 2, 3, 3]))
     parts = []
     for i in range(n):
         ps = draw(G.part_spec(SCORE_PROFILE, pid="P%d" % (i + 1), note_prefix="p%dn" % i))
         parts.append(ps)
     empty = draw(st.sampled_from([None, None, None, 0, 1, n - 1]))
-    if empty is not None:
+    if empty is not None and empty < n and n > 1:
         parts[empty] = dict(parts[empty], notes=[n_ for n_ in parts[empty]["notes"] if n_["kind"] == "rest"], tuplets=[])
+    unique = draw(st.booleans())
+    container = draw(st.sampled_from(["score", "list", "group", "nested-group"]))
+    if container == "nested-group" and (n < 2 or unique):
+        # (ids of parts in nested groups get one prefix per level; only the unprefixed union is demanded)
+        container = "group"
+    # the same part object twice in the list (only with prefixed ids, rows are matched by id)
+    alias = None
+    if unique and container in ("score", "list") and draw(st.booleans()):
+        alias = draw(st.integers(0, n - 1))
     return {
         "parts": parts,
-        "unique": draw(st.booleans()),
+        "unique": unique,
         "flags": draw(st.lists(st.booleans(), min_size=6, max_size=6)),
-        "container": draw(st.sampled_from(["score", "list", "group"])),
+        "container": container,
+        # method of the container / the dispatching function / the list function
+        "entry": draw(st.sampled_from(["method", "ensure", "function"])),
+        "alias": alias,
     }
 
 
@@ -351,16 +434,27 @@ def strat_score(tier):
 
 
 def oracle_score(spec):
+    from partitura.utils.music import ensure_notearray, note_array_from_part_list
+
     o = Outcome()
-    parts_spec = spec["parts"]
+    parts_spec = list(spec["parts"])
     sspec = {"parts": parts_spec}
-    if spec["container"] == "group":
-        sspec["groups"] = [{"symbol": "brace", "name": "G", "number": 1, "children": list(range(len(parts_spec)))}]
+    container = spec["container"]
+    n = len(parts_spec)
+    if container == "group":
+        sspec["groups"] = [{"symbol": "brace", "name": "G", "number": 1, "children": list(range(n))}]
+    elif container == "nested-group":
+        sspec["groups"] = [{"symbol": "bracket", "name": "G", "number": 1, "children": [0, {"symbol": "brace", "name": "H", "number": 2, "children": list(range(1, n))}]}]
     score, parts, _ = build_score(sspec)
+    alias = spec.get("alias")
+    if alias is not None:
+        parts = parts + [parts[alias]]
+        parts_spec = parts_spec + [parts_spec[alias]]
+        score = S.Score(partlist=parts, id="score")
     flags = dict(zip(FLAGS[:6], spec["flags"]))
     kw = {k: True for k, v in flags.items() if v}
     divs = [p["divs"][0][1] for p in parts_spec]
-    nonempty = [i for i, p in enumerate(parts_spec) if any(n["kind"] in ("note", "grace") for n in p["notes"])]
+    nonempty = [i for i, p in enumerate(parts_spec) if any(n_["kind"] in ("note", "grace") for n_ in p["notes"])]
     if not nonempty:
         o.excluded.append("no-notes-at-all")
         return o
@@ -376,21 +470,36 @@ def oracle_score(spec):
     o.cls("empty-part", len(nonempty) < len(parts_spec))
     o.cls("empty-part-first", 0 not in nonempty)
     o.cls("unique-ids", spec["unique"])
-    o.cls("container:" + spec["container"])
-    if spec["container"] == "score":
-        arr = call(score.note_array, unique_id_per_part=spec["unique"], **kw)
-    elif spec["container"] == "list":
-        from partitura.utils.music import note_array_from_part_list
-
-        arr = call(note_array_from_part_list, parts, unique_id_per_part=spec["unique"], **kw)
+    o.cls("container:" + container)
+    entry = spec.get("entry", "function")
+    o.cls("entry:" + entry)
+    o.cls("single-part", len(parts_spec) == 1)
+    o.cls("same-part-twice", alias is not None)
+    if container == "score":
+        if entry == "ensure":
+            arr = call(ensure_notearray, score, unique_id_per_part=spec["unique"], **kw)
+        elif entry == "function":
+            arr = call(note_array_from_part_list, score.parts, unique_id_per_part=spec["unique"], **kw)
+        else:
+            arr = call(score.note_array, unique_id_per_part=spec["unique"], **kw)
+    elif container == "list":
+        if entry == "ensure":
+            arr = call(ensure_notearray, parts, unique_id_per_part=spec["unique"], **kw)
+        else:
+            arr = call(note_array_from_part_list, parts, unique_id_per_part=spec["unique"], **kw)
     else:
-        from partitura.utils.music import note_array_from_part_list
-
-        arr = call(note_array_from_part_list, score.part_structure[0].children, unique_id_per_part=spec["unique"], **kw)
+        group = score.part_structure[0]
+        if entry == "ensure":
+            arr = call(ensure_notearray, group, unique_id_per_part=spec["unique"], **kw)
+        elif entry == "method":
+            arr = call(group.note_array, unique_id_per_part=spec["unique"], **kw)
+        else:
+            arr = call(note_array_from_part_list, group.children, unique_id_per_part=spec["unique"], **kw)
     cols = list(COLS_ALWAYS) + ["divs_pq"]
     for k, v in flags.items():
         if v:
             cols += COLS_BY_FLAG[k]
+    prefixed = spec["unique"] and len(parts_spec) > 1
     last = None
     for L in ([L_ne] if L_ne == L_all else [L_ne, L_all]):
         rows = {}
@@ -409,7 +518,7 @@ def oracle_score(spec):
                 r["duration_div"] *= mult
                 r["divs_pq"] = L
                 # metrical columns are taken from the part's own map (not rescaled)
-                key = ("P%02d_" % i + nid) if spec["unique"] else nid
+                key = ("P%02d_" % i + nid) if prefixed else nid
                 r["id"] = key
                 rows[key] = r
         sub = Outcome()
@@ -437,13 +546,30 @@ def strat_inverse(tier):
             on = Fraction(draw(st.integers(0, 16 * d_on)), d_on)
             du = Fraction(draw(st.integers(1, 4 * d_du)), d_du)
             out.append([unfr(on), unfr(du), draw(st.integers(36, 96))])
+        kind = draw(st.sampled_from(["beat", "div", "both"]))
+        with_voice = draw(st.booleans())
+        # ---- generator audit (docs/audit/C05.md)
+        # zero-duration rows (grace notes) at the onset of a row of the same voice (needs the voice column:
+        # without it voices are estimated, and sanitize drops grace notes without main note in their voice)
+        grace = []
+        if with_voice and draw(st.integers(0, 2)) == 0:
+            for i in sorted(set(draw(st.lists(st.integers(0, k - 1), min_size=1, max_size=3)))):
+                grace.append([out[i][0], draw(st.integers(30, 100))])
         return {
             "rows": out,
-            "kind": draw(st.sampled_from(["beat", "div", "both"])),
+            "kind": kind,
             "divs_mult": draw(st.sampled_from([1, 1, 2, 5])),
             "with_ts": draw(st.booleans()),
             "sanitize": draw(st.booleans()),
-            "with_voice": draw(st.booleans()),
+            "with_voice": with_voice,
+            "grace": grace,
+            # a list of note arrays gives a score with one part per array (rows dealt out alternately)
+            "as_list": kind != "beat" and k >= 2 and draw(st.integers(0, 3)) == 0,
+            "return_part": draw(st.integers(0, 3)) == 0,
+            # the other documented ways to state the time signature
+            "ts_arg": draw(st.sampled_from([None, None, "estimate", "list3", "list4"])),
+            # an id column that is kept
+            "with_ids": draw(st.integers(0, 3)) == 0,
         }
 
     return rows()
@@ -470,6 +596,12 @@ def oracle_inverse(spec):
     o.cls("onset-grid-finer-than-duration-grid", dur_den % on_den != 0)
     o.cls("with-time-signature", spec["with_ts"])
     o.cls("sanitize", spec["sanitize"])
+    grace = [(fr(a), Fraction(0), p) for a, p in spec.get("grace", [])]
+    o.cls("zero-duration-rows", bool(grace))
+    o.cls("list-of-arrays", bool(spec.get("as_list")))
+    o.cls("return-part", bool(spec.get("return_part")) and not spec.get("as_list"))
+    o.cls("time-signature-argument", bool(spec.get("ts_arg")) and not spec["with_ts"] and not spec.get("as_list"))
+    o.cls("id-column-kept", bool(spec.get("with_ids")))
     fields = []
     if kind in ("beat", "both"):
         fields += [("onset_beat", "f4"), ("duration_beat", "f4")]
@@ -480,8 +612,11 @@ def oracle_inverse(spec):
         fields += [("voice", "i4")]
     if spec["with_ts"]:
         fields += [("ts_beats", "i4"), ("ts_beat_type", "i4")]
+    if spec.get("with_ids"):
+        fields += [("id", "U32")]
+    all_rows = rows + grace
     data = []
-    for a, b, p in rows:
+    for i, (a, b, p) in enumerate(all_rows):
         rec = ()
         if kind in ("beat", "both"):
             rec += (float(a), float(b))
@@ -492,30 +627,59 @@ def oracle_inverse(spec):
             rec += (1,)
         if spec["with_ts"]:
             rec += (4, 4)
+        if spec.get("with_ids"):
+            rec += ("x%d" % i,)
         data.append(rec)
-    na = np.array(data, dtype=fields)
-    kw = dict(sanitize=spec["sanitize"], assign_note_ids=True)
+    kw = dict(sanitize=spec["sanitize"], assign_note_ids=not spec.get("with_ids"))
     if kind in ("div", "both"):
         kw["divs"] = divs
-    if kind == "both" and spec["divs_mult"] != 1:
-        pass
-    sc = call(note_array_to_score, na, **kw)
-    out = call(sc.note_array)
+    exp = sorted((a, b, p) for a, b, p in all_rows)
+    if spec.get("as_list"):
+        # rows dealt out alternately; a zero-duration row goes where its main note (first row with its onset) goes
+        side = [i % 2 for i in range(len(rows))]
+        for (a, _, _) in grace:
+            side.append(side[[i for i, r in enumerate(rows) if r[0] == a][0]])
+        arrays = [np.array([r for r, sd in zip(data, side) if sd == k], dtype=fields) for k in (0, 1)]
+        sc = call(note_array_to_score, arrays, **kw)
+        out_parts = list(sc.parts)
+        if len(out_parts) != 2:
+            o.add("inverse-list-of-arrays-gives-other-number-of-parts", got=len(out_parts))
+            return o
+    else:
+        na = np.array(data, dtype=fields)
+        if not spec["with_ts"]:
+            # (a 4/4 signature from time 0; all times here are in quarters)
+            end = int(max(a + b for a, b, _ in all_rows) * divs) + 1
+            if spec.get("ts_arg") == "estimate":
+                kw["estimate_time"] = True
+            elif spec.get("ts_arg") == "list3" and kind != "beat":
+                kw["time_sigs"] = [[0, 4, 4]]
+            elif spec.get("ts_arg") == "list4" and kind != "beat":
+                kw["time_sigs"] = [[0, 4, 4, end]]
+        if spec.get("return_part"):
+            res = call(note_array_to_score, na, return_part=True, **kw)
+            if not isinstance(res, S.Part):
+                o.add("inverse-return-part-gives-no-part", got=type(res).__name__)
+                return o
+            out_parts = [res]
+        else:
+            sc = call(note_array_to_score, na, **kw)
+            out_parts = list(sc.parts)
     # compare multisets in quarters (beats are quarters here: x/4 signatures or none)
-    exp = sorted((a, b, p) for a, b, p in rows)
-    part = sc.parts[0]
-    d_out = Fraction(int(part._quarter_durations[0]))
-    # beat columns are relative to the part's origin; compare onsets relative to the first onset
-    got = sorted((Fraction(int(x), 1) / d_out, Fraction(int(y), 1) / d_out, int(p)) for x, y, p in zip(out["onset_div"], out["duration_div"], out["pitch"]))
+    got = []
+    d_outs = []
+    for part in out_parts:
+        out = call(part.note_array)
+        d_out = Fraction(int(part._quarter_durations[0]))
+        d_outs.append(str(d_out))
+        got += [(Fraction(int(x), 1) / d_out, Fraction(int(y), 1) / d_out, int(p)) for x, y, p in zip(out["onset_div"], out["duration_div"], out["pitch"])]
+    got.sort()
     if len(got) != len(exp):
-        o.add("inverse-row-count-differs", got=len(got), expected=len(exp), array_kind=kind)
+        o.add("inverse-row-count-differs", got=len(got), expected=len(exp), array_kind=kind, zero_duration_rows=len(grace))
         return o
-    if kind == "beat":
-        # divisions are estimated by the library: onsets are only defined up to the minimum onset shift
-        pass
     if got != exp:
         bad = [(g, e) for g, e in zip(got, exp) if g != e][:3]
-        o.add("inverse-onset-duration-pitch-differ", array_kind=kind, divs_in=divs, divs_out=str(d_out),
+        o.add("inverse-onset-duration-pitch-differ", array_kind=kind, divs_in=divs, divs_out=",".join(d_outs),
               first_diffs=[[str(x) for x in g] + ["vs"] + [str(x) for x in e] for g, e in bad])
     return o
 
@@ -610,6 +774,80 @@ def oracle_inverse_ts(spec):
     return o
 
 
+# ------------------------------------------------------------------ inverse applied to the note array of a generated part
+RT_PROFILE = G.profile(max_bars=3, max_voices=2, max_staves=1, div_changes=False, midbar_changes=False, irregular=False, missing_voice_staff=False)
+
+
+def strat_part_roundtrip(tier):
+    prof = dict(RT_PROFILE)
+    if tier == "thorough":
+        prof["max_bars"] = 5
+    return st.fixed_dictionaries(
+        {
+            "part": G.part_spec(prof),
+            "time_columns": st.sampled_from(["both", "both", "div"]),
+            "signature_columns": st.booleans(),
+            "sanitize": st.booleans(),
+        }
+    )
+
+
+def oracle_part_roundtrip(spec):
+    """The note array of a part (as the library itself produces it: divisions and beats, negative beats in a
+    pickup, tie chains as one row, grace notes with zero duration) given to note_array_to_score: the note array
+    of the result has the same (onset_div, duration_div, pitch) rows."""
+    o = Outcome()
+    ps = dict(spec["part"])
+    byid = {n["id"]: n for n in ps["notes"]}
+    # sanitize removes grace notes that have no main note at their onset in their voice (documented in
+    # sanitize_part); in a note array a main note that continues a tie is no row: such grace notes are left out
+    drop = set()
+    for n in ps["notes"]:
+        if n["kind"] == "grace":
+            cur = n
+            while cur is not None and cur["kind"] == "grace":
+                cur = byid.get(cur.get("grace_next"))
+            if cur is None or cur.get("tie_prev"):
+                drop.add(n["id"])
+    ps["notes"] = [n for n in ps["notes"] if n["id"] not in drop]
+    part, _ = build_part(ps)
+    d = ps["divs"][0][1]
+    tref = G.TimeRef(ps)
+    rows = expected_rows(ps, ("note", "grace"), tref)
+    if not rows:
+        o.excluded.append("part-without-notes")
+        return o
+    exp = sorted((r["onset_div"], r["duration_div"], r["pitch"]) for r in rows.values())
+    o.nontrivial = ps["pickup"] is not None or any(r["duration_div"] == 0 for r in rows.values()) or any(n.get("tie_next") for n in ps["notes"])
+    o.cls("pickup", ps["pickup"] is not None)
+    o.cls("grace", any(r["duration_div"] == 0 for r in rows.values()))
+    o.cls("tie-chain", any(n.get("tie_next") for n in ps["notes"]))
+    o.cls("signature-change", len(ps["timesigs"]) > 1)
+    o.cls("beat-is-not-a-quarter", any(bt != 4 for _, _, bt in ps["timesigs"]))
+    o.cls("time-columns:" + spec["time_columns"])
+    o.cls("signature-columns", spec["signature_columns"])
+    o.cls("sanitize", spec["sanitize"])
+    na = call(part.note_array, include_time_signature=spec["signature_columns"])
+    if spec["time_columns"] == "div":
+        keep = [c for c in na.dtype.names if c not in ("onset_beat", "duration_beat", "onset_quarter", "duration_quarter")]
+        na = na[keep].copy()
+    sc = call(note_array_to_score, na, divs=d, sanitize=spec["sanitize"])
+    p2 = sc.parts[0]
+    d2 = int(p2._quarter_durations[0])
+    if d2 != d:
+        o.add("roundtrip-divisions-differ", got=d2, expected=d)
+        return o
+    out = call(p2.note_array)
+    got = sorted((int(x), int(y), int(z)) for x, y, z in zip(out["onset_div"], out["duration_div"], out["pitch"]))
+    if got != exp:
+        from collections import Counter
+
+        miss = sorted((Counter(exp) - Counter(got)).elements())[:4]
+        extra = sorted((Counter(got) - Counter(exp)).elements())[:4]
+        o.add("part-array-roundtrip-rows-differ", missing=miss, extra=extra, pickup=ps["pickup"], timesigs=ps["timesigs"])
+    return o
+
+
 def known_divs_from_beats(spec, d):
     """create_divs_from_beats derives divisions from the durations only."""
     if d.kind not in ("inverse-onset-duration-pitch-differ",):
@@ -629,32 +867,45 @@ SUBCHECKS = [
         oracle_part,
         strategy=strat_part,
         budget={"quick": 120, "thorough": 4000},
-        rule="generated parts (division/signature changes, pickups, tie chains, grace notes, missing voice/staff, notated/musical beats) x all 128 include_* subsets (sampled); every column compared with the abstract score; non-trivial = tie chain or grace note",
-        floors={"tie-chain": 0.1, "grace": 0.05, "include_staff": 0.15, "include_metrical_position": 0.15, "missing-voice": 0.05},
+        rule="generated parts (division/signature changes, pickups, tie chains, grace notes, missing voice/staff, voice numbers with gaps, notated/musical beats incl. switched on and off again) x all 128 include_* subsets (sampled) x entry point (Part.note_array, ensure_notearray, note_array_from_part, Score of one part) x optional earlier call with other options; every column compared with the abstract score; non-trivial = tie chain or grace note",
+        floors={"tie-chain": 0.1, "grace": 0.05, "include_staff": 0.15, "include_metrical_position": 0.15, "missing-voice": 0.05,
+                # generator audit (docs/audit/C05.md)
+                "voice-numbers-with-gaps": 0.03, "entry:ensure": 0.05, "entry:function": 0.05, "entry:score-of-one-part": 0.01,
+                "warm-up-call-with-other-options": 0.1, "beats-toggled-back": 0.1},
     ),
     SubCheck(
         "rest_array",
         oracle_rest,
         strategy=strat_rest,
         budget={"quick": 60, "thorough": 2000},
-        rule="rest arrays of generated parts x include_* subsets x collapse; non-trivial = >=2 rests and an option on",
-        floors={"has-rests": 0.3},
+        rule="rest arrays of generated parts (rests without voice, musical beats) x include_* subsets x collapse x entry point (Part.rest_array, ensure_rest_array); non-trivial = >=2 rests and an option on",
+        floors={"has-rests": 0.3, "rest-without-voice": 0.02, "musical-beats": 0.1, "entry:ensure": 0.06},
     ),
     SubCheck(
         "score_note_array",
         oracle_score,
         strategy=strat_score,
         budget={"quick": 60, "thorough": 2500},
-        rule="scores / part lists / part groups of 2-3 parts with one divisions value each (lcm rescaling, P%02d_ ids, empty parts); non-trivial = parts with different divisions",
-        floors={"different-divisions": 0.2, "empty-part": 0.05},
+        rule="scores / part lists / part groups / nested part groups of 1-3 parts with one divisions value each, the same part twice in a list, through the container's method, ensure_notearray or note_array_from_part_list (lcm rescaling, P%02d_ ids, empty parts); non-trivial = parts with different divisions",
+        floors={"different-divisions": 0.2, "empty-part": 0.05, "single-part": 0.05, "container:nested-group": 0.03, "entry:ensure": 0.06,
+                "entry:method": 0.1, "same-part-twice": 0.02},
     ),
     SubCheck(
         "note_array_to_score",
         oracle_inverse,
         strategy=strat_inverse,
         budget={"quick": 40, "thorough": 1500},
-        rule="note arrays with beat, division or both time columns on rational grids (denominators <= 16), with/without signature and voice columns, sanitize on/off; score built and its note array compared as a multiset of (onset, duration, pitch) in quarters; non-trivial = >=2 rows",
+        rule="note arrays with beat, division or both time columns on rational grids (denominators <= 16), with/without signature and voice columns, zero-duration rows, id column, time signature by columns / time_sigs list / estimate_time, a list of arrays, return_part, sanitize on/off; score built and its note array compared as a multiset of (onset, duration, pitch) in quarters; non-trivial = >=2 rows",
         known={"divs-from-beats-ignores-onset-grid": known_divs_from_beats},
+        floors={"zero-duration-rows": 0.04, "list-of-arrays": 0.05, "return-part": 0.1, "time-signature-argument": 0.05, "id-column-kept": 0.1},
+    ),
+    SubCheck(
+        "note_array_of_part_to_score",
+        oracle_part_roundtrip,
+        strategy=strat_part_roundtrip,
+        budget={"quick": 40, "thorough": 1000},
+        rule="the note array of a generated part (one divisions value; pickups with negative beats, signature changes incl. x/8 and x/2, tie chains over bar lines as one row, grace notes as zero-duration rows) with division+beat or only division columns, with / without signature columns, sanitize on/off, given to note_array_to_score; rows (onset_div, duration_div, pitch) of the result's note array compared; non-trivial = pickup, grace note or tie chain",
+        floors={"pickup": 0.05, "grace": 0.05, "tie-chain": 0.1},
     ),
     SubCheck(
         "note_array_to_score_signatures",
